@@ -42,31 +42,37 @@ def fillTable (blocks : List (List (Int × Int))) (t : List (List Int)) : Py (Li
 def waterAt (pb : Problem) (y x : Nat) : Py Expr :=
   getCell (bvars 0 (pb.height * pb.width)) pb.height pb.width y x
 
+/-- `if x < width - 1 and block_id[y][x] == block_id[y][x + 1]: solver.ensure(is_water[y, x] == is_water[y, x + 1])`. -/
+def rightCs (pb : Problem) (bid : List (List Int)) (y x : Nat) : Py (List Expr) :=
+  if (x : Int) < (pb.width : Int) - 1 then do
+    let a ← tableGet bid y x
+    let b ← tableGet bid y ((x : Int) + 1)
+    if a == b then do
+      let l ← waterAt pb y x
+      let r ← waterAt pb y (x + 1)
+      let e ← iffPy l r
+      let e ← ensure1 e
+      .ok [e]
+    else .ok []
+  else .ok []
+
+/-- `if y < height - 1 and block_id[y][x] == block_id[y + 1][x]: solver.ensure(is_water[y, x].then(is_water[y + 1, x]))`. -/
+def belowCs (pb : Problem) (bid : List (List Int)) (y x : Nat) : Py (List Expr) :=
+  if (y : Int) < (pb.height : Int) - 1 then do
+    let a ← tableGet bid y x
+    let b ← tableGet bid ((y : Int) + 1) x
+    if a == b then do
+      let u ← waterAt pb y x
+      let d ← waterAt pb (y + 1) x
+      let e ← ensure1 (thenRaw u d)
+      .ok [e]
+    else .ok []
+  else .ok []
+
 /-- Body of the final double loop for the cell `(y, x)`. -/
 def cellCs (pb : Problem) (bid : List (List Int)) (p : Nat × Nat) : Py (List Expr) := do
-  let y := p.1
-  let x := p.2
-  let c1 ← if (x : Int) < (pb.width : Int) - 1 then do
-      let a ← tableGet bid y x
-      let b ← tableGet bid y (x + 1)
-      if a == b then do
-        let l ← waterAt pb y x
-        let r ← waterAt pb y (x + 1)
-        let e ← iffPy l r
-        let e ← ensure1 e
-        .ok [e]
-      else .ok []
-    else .ok []
-  let c2 ← if (y : Int) < (pb.height : Int) - 1 then do
-      let a ← tableGet bid y x
-      let b ← tableGet bid (y + 1) x
-      if a == b then do
-        let u ← waterAt pb y x
-        let d ← waterAt pb (y + 1) x
-        let e ← ensure1 (thenRaw u d)
-        .ok [e]
-      else .ok []
-    else .ok []
+  let c1 ← rightCs pb bid p.1 p.2
+  let c2 ← belowCs pb bid p.1 p.2
   .ok (c1 ++ c2)
 
 /-- The program posted by `solve_aquarium`, with the number of rows of the `block_id` table as a parameter. -/
